@@ -510,7 +510,7 @@ func (s *Sim) decide(ready []*Task, acts []Action) {
 	}
 	switch {
 	case pick.task != nil:
-		s.trace.add("T", pick.task.ID, pick.task.Site)
+		s.trace.addTask(pick.task)
 		s.release(pick.task)
 	case pick.act != nil:
 		s.Stats.EnvActions++
@@ -547,7 +547,7 @@ func (s *Sim) decideFair(ready []*Task, acts []Action) {
 			}
 		}
 		s.rr = pick.ID
-		s.trace.add("T", pick.ID, pick.Site)
+		s.trace.addTask(pick)
 		s.release(pick)
 		return
 	}
@@ -658,6 +658,13 @@ func (t *traceLog) add(kind string, a, b int) {
 	t.mix(uint64(kind[0])<<56 ^ uint64(uint32(a))<<24 ^ uint64(uint32(b)))
 	if t.full {
 		t.lines = append(t.lines, fmt.Sprintf("%s %d %s", kind, a, SiteName(b)))
+	}
+}
+
+func (t *traceLog) addTask(tk *Task) {
+	t.mix(uint64('T')<<56 ^ uint64(uint32(tk.ID))<<24 ^ uint64(uint32(tk.Site)))
+	if t.full {
+		t.lines = append(t.lines, fmt.Sprintf("T %d(%s) %s", tk.ID, tk.Name, SiteName(tk.Site)))
 	}
 }
 
